@@ -270,6 +270,35 @@ pub fn fix_ident(mut s: String, rules: IdentRules) -> String {
     s
 }
 
+/// Every plain identifier of up to `max_len` characters over a small alphabet
+/// that has one representative of each character class the identifier
+/// productions distinguish (letter, non-ASCII letter, sign, dot, `@`, digit,
+/// colon, another special initial): the short peculiar identifiers (`+.a`,
+/// `λ.`, `-..`, `..@`) are where readers special-case, and a random generator
+/// meets any particular one of them rarely.
+pub fn small_identifiers(max_len: usize, rules: IdentRules) -> Vec<String> {
+    const ALPHABET: [char; 9] = ['a', 'λ', '+', '-', '.', '@', '1', ':', '!'];
+    let mut out = Vec::new();
+    let mut cur: Vec<String> = vec![String::new()];
+    for _ in 0..max_len {
+        let mut next = Vec::new();
+        for s in &cur {
+            for c in ALPHABET {
+                let mut t = s.clone();
+                t.push(c);
+                next.push(t);
+            }
+        }
+        for t in &next {
+            if crate::reader::is_identifier(t) && fix_ident(t.clone(), rules) == *t {
+                out.push(t.clone());
+            }
+        }
+        cur = next;
+    }
+    out
+}
+
 /// Plain identifiers by the R7RS productions (G_ident).
 pub fn g_ident(rules: IdentRules) -> BS<String> {
     let initial = prop_oneof![6 => pick(ASCII_LETTERS), 2 => pick(SPECIAL_INITIAL)];
@@ -462,6 +491,44 @@ pub fn g_wide(cfg: ValueCfg, max: usize) -> BS<MV> {
                 // an association list under a head symbol
                 3 => MV::list(std::iter::once(MV::sym("alist")).chain(items).collect()),
                 _ => MV::list(items),
+            }
+        })
+        .boxed()
+}
+
+/// Atoms whose size sits on or next to the buffer sizes code tends to
+/// special-case (256, 1 KiB, 4 KiB, 8 KiB, 64 KiB): strings, symbols and
+/// keywords of that many bytes with a multi-byte character straddling the
+/// threshold, strings that need an escape (they go through the scratch
+/// buffer), and byte vectors of that many octets.
+pub fn g_big_atom(max: usize) -> BS<MV> {
+    let sizes: Vec<usize> = [256usize, 1024, 4096, 8192, 65536, 131072].into_iter().filter(|s| *s <= max).collect();
+    let wide = prop_oneof![Just('é'), Just('λ'), Just('中'), Just('\u{1F600}')];
+    (proptest::sample::select(sizes), -2i64..=2, wide, 0u8..6, 0usize..3000)
+        .prop_map(|(size, delta, w, form, extra)| {
+            // `lead` ASCII bytes, then the wide character so that it straddles
+            // byte offset `size` (delta shifts it), then a tail
+            let lead = (size as i64 - 1 + delta).max(1) as usize;
+            // names have to stay identifiers: a letter instead of the emoji there
+            let body = |first: char| {
+                let w = if first != 'a' && !w.is_alphabetic() { 'λ' } else { w };
+                let mut t = String::with_capacity(lead + extra + 8);
+                t.push(first);
+                for _ in 1..lead {
+                    t.push('a');
+                }
+                t.push(w);
+                for _ in 0..extra {
+                    t.push('b');
+                }
+                t
+            };
+            match form {
+                0 | 1 => MV::Str(body('a')),
+                2 => MV::Str(format!("\"{}", body('a'))),
+                3 => MV::Sym(body('s')),
+                4 => MV::Kw(body('k')),
+                _ => MV::Bytes((0..lead + extra % 7).map(|i| (i % 251) as u8).collect()),
             }
         })
         .boxed()
